@@ -279,6 +279,10 @@ func cmdCheck(args []string) int {
 		}
 	}
 	ex := NewExec(prog, specs)
+	ex.genLimit = 6 * time.Minute // the slowest function on the unchanged tree needs about 25 s
+	if *tier == "thorough" {
+		ex.genLimit = 20 * time.Minute
+	}
 	ex.setupGlobals(pkgs)
 	extraModelTerms = func(entry *State, add func(string, *Term)) {
 		defer func() { recover() }()
